@@ -63,15 +63,17 @@ GetField(fs, n) == fs[FieldIdx(fs, n)].val
 (* copy then the new value must be of the same type"; NULL is assignable to   *)
 (* and from every type (types.md).  Base order kept, new fields appended.     *)
 SameTypeOrNull(a, b) == a.t = b.t \/ a.t = "null" \/ b.t = "null"
-MergeOne(fs, f) ==    \* -> fields or Err
+BadFs == << [bad |-> TRUE] >>                 \* "type mismatch" result of a merge
+IsBadFs(r) == r # << >> /\ "bad" \in DOMAIN r[1]
+MergeOne(fs, f) ==    \* -> fields or BadFs
   IF HasField(fs, f.nm)
     THEN (IF SameTypeOrNull(GetField(fs, f.nm), f.val)
-            THEN [fs EXCEPT ![FieldIdx(fs, f.nm)] = f] ELSE Err)
+            THEN [fs EXCEPT ![FieldIdx(fs, f.nm)] = f] ELSE BadFs)
     ELSE Append(fs, f)
 RECURSIVE MergeAll(_, _)
 MergeAll(fs, ovs) ==
   IF ovs = << >> THEN fs
-  ELSE LET r == MergeOne(fs, Head(ovs)) IN IF r = Err THEN Err ELSE MergeAll(r, Tail(ovs))
+  ELSE LET r == MergeOne(fs, Head(ovs)) IN IF IsBadFs(r) THEN BadFs ELSE MergeAll(r, Tail(ovs))
 
 (* ---- strings <-> numbers ---------------------------------------------------- *)
 IsDigit(c) == \E j \in 1..10 : Digits[j] = c
@@ -231,10 +233,10 @@ SortFlds(fs) ==
 
 Inst(m, ovs) ==
   LET merged == MergeAll(m.flds, ovs)
-  IN IF merged = Err THEN Err
+  IN IF IsBadFs(merged) THEN Err
      ELSE LET withThis == MergeOne(merged, Fld(N_this, m))
               r == Exec(m.body, << Fld(N_mod, TupleV(withThis)) >>, << >>)
-          IN IF withThis = Err THEN Err
+          IN IF IsBadFs(withThis) THEN Err
              ELSE IF r.k = "unm" THEN Unm
              ELSE IF r.k = "fail" THEN Err
              ELSE IF m.out # << >> THEN EvalE(m.out[1], r.env, << >>)
@@ -309,9 +311,9 @@ CopyOn(base, flds, rho, selfs) ==
            w   == Worst(FldVals(ovs))
            own == MergeAll(<< >>, ovs)      \* the override tuple itself is built by merging
        IN IF Bad(w) THEN w
-          ELSE IF own = Err THEN Err
+          ELSE IF IsBadFs(own) THEN Err
           ELSE IF base.t = "tuple"
-                 THEN (LET r == MergeAll(base.fs, own) IN IF r = Err THEN Err ELSE TupleV(r))
+                 THEN (LET r == MergeAll(base.fs, own) IN IF IsBadFs(r) THEN Err ELSE TupleV(r))
                  ELSE Inst(base, own)
 
 EvalE(e, rho, selfs) ==
@@ -326,7 +328,7 @@ EvalE(e, rho, selfs) ==
          LET fs == EvalFlds(e.flds, rho, selfs)
              w  == Worst(FldVals(fs))
              m  == MergeAll(<< >>, fs)
-         IN IF Bad(w) THEN w ELSE IF m = Err THEN Err ELSE TupleV(m)
+         IN IF Bad(w) THEN w ELSE IF IsBadFs(m) THEN Err ELSE TupleV(m)
     [] e.e = "list" ->
          LET es == EvalSeq(e.xs, rho, selfs) IN IF AnyBad(es) THEN Worst(es) ELSE ListV(es)
     [] e.e = "not" ->
@@ -364,7 +366,7 @@ EvalE(e, rho, selfs) ==
          LET fs == EvalFlds(e.ps, rho, selfs)
              w  == Worst(FldVals(fs))
              m  == MergeAll(<< >>, fs)
-         IN IF Bad(w) THEN w ELSE IF m = Err THEN Err ELSE ModV(m, e.out, e.body)
+         IN IF Bad(w) THEN w ELSE IF IsBadFs(m) THEN Err ELSE ModV(m, e.out, e.body)
     [] e.e = "fop" ->
          LET f   == EvalE(e.fn, rho, selfs)
              tg  == EvalE(e.tgt, rho, selfs)
@@ -372,6 +374,9 @@ EvalE(e, rho, selfs) ==
          IN IF AnyBad(<< f, tg, acc >>) THEN Worst(<< f, tg, acc >>)
             ELSE IF f.t # "func" THEN Err
             ELSE IF tg.t \notin {"list", "tuple", "str"} THEN Err
+            (* "The function is expected to take a single argument" (list, string), *)
+            (* "two arguments" (tuple); reduce adds the accumulator in front        *)
+            ELSE IF Len(f.ps) # (IF tg.t = "tuple" THEN 2 ELSE 1) + (IF e.kind = "reduce" THEN 1 ELSE 0) THEN Err
             ELSE (CASE e.kind = "map" ->
                         (CASE tg.t = "list" -> MapL(f, tg.es) [] tg.t = "tuple" -> MapT(f, tg.fs)
                            [] tg.t = "str" -> MapS(f, tg.s))
